@@ -1,6 +1,7 @@
 package main
 
 import (
+	"sort"
 	"net/http/httptest"
 	"context"
 	"encoding/json"
@@ -105,6 +106,7 @@ type rpcComp struct {
 	handlers int
 	wrongSvc bool
 	notFound int
+	ended    bool
 }
 
 func (c *rpcComp) noteHandler(ctx context.Context) {
@@ -119,7 +121,10 @@ func (c *rpcComp) noteHandler(ctx context.Context) {
 
 func (c *rpcComp) Close() {
 	if c.codec != nil {
-		close(c.codec.closed)
+		if !c.ended {
+			close(c.codec.closed)
+		}
+		c.ended = false
 		for _, lc := range c.calls {
 			lc.cancel()
 		}
@@ -129,7 +134,7 @@ func (c *rpcComp) Close() {
 
 func (c *rpcComp) Reset(opts map[string]string, base int64) { c.Close() }
 
-func (c *rpcComp) setup(limit, discard int) {
+func (c *rpcComp) setup(limit, discard int, nilClient bool) {
 	c.Close()
 	c.codec = &schedCodec{in: make(chan *jsonrpc2.Message), closed: make(chan struct{})}
 	srv := &jsonrpc2.Server{}
@@ -137,6 +142,10 @@ func (c *rpcComp) setup(limit, discard int) {
 		fatal(err)
 	}
 	c.remote = &jsonrpc2.Remote{Codec: c.codec, Client: &jsonrpc2.Client{}, Server: srv, PendingLimit: limit, PendingDiscard: discard}
+	if nilClient {
+		// the way the root package's client.go builds its connection to the pool: no Client given
+		c.remote = &jsonrpc2.Remote{Codec: c.codec, Server: srv, PendingLimit: limit, PendingDiscard: discard}
+	}
 	c.calls = map[string]*liveCall{}
 	c.idToken = map[int]string{}
 	c.handlers, c.wrongSvc, c.notFound = 0, false, 0
@@ -197,6 +206,9 @@ func callOutcome(res string, err error) string {
 	if err == context.Canceled || err == context.DeadlineExceeded {
 		return "err ctx"
 	}
+	if err == io.EOF {
+		return "err closed"
+	}
 	if e, ok := err.(interface{ ErrorCode() int }); ok {
 		return fmt.Sprintf("err code %d", e.ErrorCode())
 	}
@@ -233,7 +245,7 @@ func (c *rpcComp) Exec(t []string) (extra []string, out string, eff bool) {
 	if t[0] == "cfg" {
 		l, _ := strconv.Atoi(get("limit"))
 		d, _ := strconv.Atoi(get("discard"))
-		c.setup(l, d)
+		c.setup(l, d, get("client") == "nil")
 		return nil, "ok", false
 	}
 	if t[0] == "storm" {
@@ -391,11 +403,35 @@ func (c *rpcComp) Exec(t []string) (extra []string, out string, eff bool) {
 			o += " wrong-service-in-context"
 		}
 		return nil, o, true
+	case "endserve":
+		// the connection fails: the read loop returns; every call in progress has to return by itself
+		if !c.ended {
+			c.ended = true
+			close(c.codec.closed)
+		}
+		live := 0
+		for _, lc := range c.calls {
+			select {
+			case o := <-lc.done:
+				lc.done <- o
+			case <-time.After(2 * time.Second):
+				live++
+			}
+		}
+		// handlers blocked in a call-back answer their request once their call has failed
+		for i := 0; i < 200 && c.remote.VerifPendingLen() > 0 && i < 40; i++ {
+			time.Sleep(500 * time.Microsecond)
+		}
+		time.Sleep(5 * time.Millisecond)
+		return nil, fmt.Sprintf("ok live=%d", live), true
 	case "outbox":
 		c.codec.mu.Lock()
 		var items []string
 		for _, m := range c.codec.out {
 			items = append(items, c.renderOut(m))
+		}
+		if len(t) > 1 && t[1] == "sorted" {
+			sort.Strings(items)
 		}
 		c.codec.out = nil
 		c.codec.mu.Unlock()
@@ -418,7 +454,11 @@ func (c *rpcComp) waitOutBrief(n int) {
 func (c *rpcComp) Gen(r *rand.Rand, idx int, emit func(string)) {
 	limit := []int{0, 0, 3, 5, 8}[r.Intn(5)]
 	discard := 1 + r.Intn(3)
-	emit(fmt.Sprintf("cfg limit=%d discard=%d", limit, discard))
+	if idx%4 == 2 {
+		emit(fmt.Sprintf("cfg limit=%d discard=%d client=nil", limit, discard))
+	} else {
+		emit(fmt.Sprintf("cfg limit=%d discard=%d", limit, discard))
+	}
 	// the generator plays an honest peer: it answers only ids that were issued, each at most once
 	nextID := 0
 	var liveIDs []int            // ids of plain calls in progress
@@ -503,6 +543,22 @@ func (c *rpcComp) Gen(r *rand.Rand, idx int, emit func(string)) {
 		default:
 			emit("pendinglen")
 		}
+	}
+	if idx%3 == 1 {
+		// the connection ends with calls in progress (some already answered but not yet awaited is impossible here:
+		// the harness lets a caller take its reply at once; a reply delivered before the caller waits is `early`)
+		emit("endserve")
+		for _, id := range liveIDs {
+			emit("await " + liveTok[id])
+		}
+		for _, id := range late {
+			_ = id
+		}
+		// a call started on the dead connection fails at once
+		emit(fmt.Sprintf("call t%d", tok))
+		emit(fmt.Sprintf("await t%d", tok))
+		emit("outbox sorted")
+		return
 	}
 	// drain: answer everything still outstanding, in a shuffled order
 	r.Shuffle(len(liveIDs), func(i, j int) { liveIDs[i], liveIDs[j] = liveIDs[j], liveIDs[i] })
